@@ -309,6 +309,91 @@ func runC18(res *Result, d *Driver, tier string, seed uint64) {
 		}
 	}
 
+	// ---- part B2: the file system changes between two checks of one handler ("for all call histories"): links and
+	// directories a program controls are re-pointed / replaced; every answer must be right for the tree as it is at
+	// that moment. The resolution used by the oracle is computed here (filepath.EvalSymlinks), not taken from the library.
+	{
+		indep := func(p string) string {
+			if p == "" {
+				return ""
+			}
+			f, err := filepath.EvalSymlinks(p)
+			if err != nil {
+				return ""
+			}
+			return f
+		}
+		nH := 60
+		if tier == "thorough" {
+			nH = 3000
+		}
+		targets := []string{tmp + "/w/f", tmp + "/r/f", tmp + "/r/deep/g", tmp + "/s", tmp + "/w/sub", tmp + "/r/deep", "/etc/passwd", tmp + "/nowhere"}
+		for i := 0; i < nH; i++ {
+			fss := filehandler.NewFileSets()
+			for _, s := range []*filehandler.FileSet{&fss.Writable, &fss.Readable, &fss.Statable, &fss.SoftBan} {
+				for j := rng.Intn(3); j > 0; j-- {
+					s.Add(rng.Pick(entryPool))
+				}
+			}
+			h := &filehandler.Handler{FileSet: fss, SyscallCounter: filehandler.NewSyscallCounter()}
+			// names that are in no set themselves and are admitted only through what they resolve to
+			os.MkdirAll(tmp+"/run", 0755)
+			links := []string{tmp + "/run/cur", tmp + "/run/dirlink"}
+			var hist []string
+			for step := 0; step < 8; step++ {
+				l := rng.Pick(links)
+				if rng.Chance(50) || step == 0 {
+					t := rng.Pick(targets)
+					os.Remove(l)
+					os.Symlink(t, l)
+					hist = append(hist, fmt.Sprintf("relink %s -> %s", filepath.Base(l), strings.TrimPrefix(t, tmp)))
+				}
+				q := l
+				if rng.Chance(40) {
+					q = l + "/" + rng.Pick([]string{"g", "f", "er", "x"})
+				}
+				c := rng.Pick([]string{"w", "r", "s"})
+				var a ptracer.TraceAction
+				switch c {
+				case "w":
+					a = h.CheckWrite(q)
+				case "r":
+					a = h.CheckRead(q)
+				default:
+					a = h.CheckStat(q)
+				}
+				rq := indep(q)
+				hist = append(hist, fmt.Sprintf("check %s %s (now %q)", c, strings.TrimPrefix(q, tmp), strings.TrimPrefix(rq, tmp)))
+				chain := map[string][]*filehandler.FileSet{"w": {&fss.Writable}, "r": {&fss.Writable, &fss.Readable}, "s": {&fss.Writable, &fss.Readable, &fss.Statable}}[c]
+				cov := func(sets []*filehandler.FileSet) bool {
+					for _, s := range sets {
+						if c18Admitted(setKeys(s.Set), s.SystemRoot, q) || c18Admitted(setKeys(s.Set), s.SystemRoot, rq) {
+							return true
+						}
+					}
+					return false
+				}
+				// what the hand model answers for this name with the resolution as it is NOW
+				line := "c18.check " + b01(fss.Writable.SystemRoot) + b01(fss.Readable.SystemRoot) + b01(fss.Statable.SystemRoot) + b01(fss.SoftBan.SystemRoot) +
+					" " + hxl(setKeys(fss.Writable.Set)) + " " + hxl(setKeys(fss.Readable.Set)) + " " + hxl(setKeys(fss.Statable.Set)) + " " + hxl(setKeys(fss.SoftBan.Set)) + " " + jl([]string{c + ":" + hx(q) + ":" + hx(rq)})
+				want := strings.Split(d.Ask(line), ",")[0]
+				res.Case("B2 "+strings.Join(hist, ";"), true, "relink-"+want)
+				violates := (a == ptracer.TraceAllow && !cov(chain)) || (a == ptracer.TraceBan && !cov([]*filehandler.FileSet{&fss.SoftBan}))
+				if actName(a) != want || violates {
+					oracle := "unknown"
+					if violates {
+						oracle = "violates"
+					}
+					res.Mismatch(Mismatch{Kind: "oracle", What: "a check after the tree changed must be answered for the tree as it is now: allow only if a set of the class chain covers the name or what it resolves to now, ban only when the soft-ban set does (C18_cascade / C18_refusal_kind over call histories; hand model with the present resolution)",
+						Input: fmt.Sprintf("W=%q R=%q S=%q Ban=%q history: %s", setKeys(fss.Writable.Set), setKeys(fss.Readable.Set), setKeys(fss.Statable.Set), setKeys(fss.SoftBan.Set), strings.Join(hist, "; ")),
+						Impl: actName(a), Model: want, Oracle: oracle})
+					break
+				}
+			}
+			os.RemoveAll(tmp + "/run")
+		}
+	}
+
 	// ---- part C: counters ----
 	names := []string{"fork", "clone", "execve", "vfork", "kill"}
 	nC := 400
